@@ -248,3 +248,18 @@ type (
 	myVal  string
 	myVals []myVal
 )
+
+// selfObj knows where it lives: its pointer-receiver marshaler reports whether the receiver is the very
+// element the caller put into the slice (a copy handed to the encoder is a different value: receiver
+// state such as counters, caches or a strings.Builder would be lost or panic).
+type selfObj struct {
+	id   string
+	self *selfObj
+}
+
+func (o *selfObj) vid() string { return "selfObj#" + o.id }
+func (o *selfObj) MarshalLogObject(enc zapcore.ObjectEncoder) error {
+	enc.AddString("id", o.id)
+	enc.AddBool("receiver_is_the_element", o == o.self)
+	return nil
+}
